@@ -68,6 +68,13 @@ CLAIMED["C21"] = dict(
     ref="DESIGN.md 4/C21",
 )
 
+CLAIMED["C11"] = dict(
+    technique="structural inversion (mirror) check: operation lists extracted from the spec-pinned synthesis functions and the free analysis functions, lifting-type table inversion by written/read parity and sign, stage-order reversal, level-order reversal with linear-form normalised ranges, positional band wiring",
+    text="For every filter pair, depth and picture: exact reconstruction follows if each analysis step is the syntactic inverse of the pinned synthesis step in reverse order; the check decides exactly that structure, including which state key selects the filter for each direction (never separated by the tests). One arithmetic lemma (rounded shift) is trusted. Unrecognised statements in the seven functions are an analysis error, never a silent pass.",
+    note="Trusted: synthesis functions equal the standard (pinned by the repository's own test); lemma ((x<<s)+(1<<(s-1)))>>s == x; LiftingFilterTypes values from vc2_data_tables.",
+    ref="DESIGN.md 4/C11",
+)
+
 NOT_APPLICABLE = {
     "C12": "arithmetic over unbounded integers (quantisation error bounds, monotonicity of a rational formula): no structural clause; needs algebra/solver or execution",
     "C13": "partition/telescoping identities of floor arithmetic on runtime sizes; the functions are spec-pinned arithmetic with nothing to decide from code shape",
